@@ -218,7 +218,14 @@ include hclose
 theorem eqTerm_exact (t u : Term R) :
     eqTerm close t u = true ↔ t.coeff = u.coeff ∧ (t.coeff = 0 ∨ opsEq t.ops u.ops = true) := by
   unfold eqTerm
-  rw [Bool.and_eq_true, Bool.or_eq_true, hclose, hclose]
+  rw [Bool.and_eq_true, Bool.or_eq_true, Bool.and_eq_true, hclose, hclose, hclose]
+  constructor
+  · rintro ⟨h1, h2 | h2⟩
+    · exact ⟨h1, Or.inl h2.1⟩
+    · exact ⟨h1, Or.inr h2⟩
+  · rintro ⟨h1, h2 | h2⟩
+    · exact ⟨h1, Or.inl ⟨h2, h1 ▸ h2⟩⟩
+    · exact ⟨h1, Or.inr h2⟩
 
 theorem sameEntry_exact (e t : Term R) :
     sameEntry close hk e t = true ↔ e.coeff = t.coeff ∧ opsEq e.ops t.ops = true := by
